@@ -248,7 +248,16 @@ func (s *Solver) Check(vars []*Term, extra ...*Term) (Result, map[string]uint64)
 	s.in.WriteString("(check-sat)\n")
 	s.in.Flush()
 	res := Unknown
+	// watchdog: the solver's own timeout is not always honoured
+	var timer *time.Timer
+	if s.TimeoutMs > 0 {
+		proc := s.cmd.Process
+		timer = time.AfterFunc(time.Duration(s.TimeoutMs)*time.Millisecond+3*time.Second, func() { proc.Kill() })
+	}
 	l, err := s.readLine()
+	if timer != nil {
+		timer.Stop()
+	}
 	if err != nil {
 		s.LastError = "solver died: " + err.Error()
 		s.NUnknown++
